@@ -135,7 +135,7 @@ def _sites():
         w("toString_concat", '"" + W', ts, "setup", "conversion")
         w("toString_String", "String(W)", ts, "setup", "conversion")
         w("toString_join", "[W].join()", ts, "setup", "conversion")
-        w("toString_key", "({})[W]", ts, "setup", "conversion")
+        w("toString_key", "KO[W]", ["var KO = {};"] + ts, "setup", "conversion")
         th = ["function TH() { __out(20); %s }" % inner]
         w("fn_call", "TH.call(null)", th, "setup", "call")
         w("fn_apply", "TH.apply(null, [])", th, "setup", "call")
@@ -219,6 +219,12 @@ def _handler(hform, body, catch_log):
     raise ValueError(hform)
 
 
+def _par(code):
+    """Parenthesise, except when the code already starts with a parenthesis (it is then a call/member
+    expression; `((1).toFixed(2))` is rejected by the engine's parser, which is not this property's business)."""
+    return code if code.startswith("(") else "(" + code + ")"
+
+
 def site_applicable(site, pl, ctx):
     if site.kind == "stmt" and pl == "inline" and ctx != "stmt":
         return False
@@ -244,12 +250,12 @@ def build_a(site, pl, ctx, hform="catch", tail="v", loc=False):
         if site.kind == "stmt":
             ctx_line = mk + "p = 1; %s q = 2;" % site.code
         else:
-            ctx_line = mk + tmpl.replace("@", "(" + site.code + ")")
+            ctx_line = mk + tmpl.replace("@", _par(site.code))
     else:
         if site.kind == "stmt":
             L += ["function f() {", "__out(1);", mk + site.code, "__out(-1);", "return 5;", "}"]
         else:
-            L += ["function f() {", "__out(1);", mk + "return (" + site.code + ");", "}"]
+            L += ["function f() {", "__out(1);", mk + "return " + _par(site.code) + ";", "}"]
         ctx_line = tmpl.replace("@", "f()")
     native = None
     if pl.startswith("native_"):
